@@ -164,6 +164,20 @@ def _judge(case, acc, main, d):
             pairs.extend(prs)
             files.append(f)
         kwargs = dict(cache_create_subcommand="merge", eb_size=eb, input=files, output_file=out)
+    elif producer == "envelope":
+        # flat envelope created by the tool with the slots as integrated payloads; no patterns: everything goes to the cache
+        from .. import sut
+
+        _, pairs = _write_payloads(d, case["slots"])
+        desc = {"SUIT_Envelope_Tagged": {"suit-authentication-wrapper": {"SuitDigest": {"suit-digest-algorithm-id": "cose-alg-sha-256"}},
+                                         "suit-manifest": {"suit-manifest-version": 1, "suit-manifest-sequence-number": 1, "suit-common": {}}}}
+        if pairs:
+            desc["SUIT_Envelope_Tagged"]["suit-integrated-payloads"] = {u: p.hex() for u, p in pairs}
+        env = os.path.join(d, "in.suit")
+        with open(env, "wb") as fh:
+            fh.write(sut.create_mem(desc))
+        kwargs = dict(cache_create_subcommand="from_envelope", eb_size=eb, input_envelope=env, output_envelope=os.path.join(d, "out.suit"), output_file=out,
+                      omit_payload_regex=None, dependency_regex=None)
     else:
         raise boot.HarnessError(f"unknown producer {producer}")
     uris = [u for u, _ in pairs]
@@ -282,7 +296,8 @@ def run_shard(ctx, spec):
         mergedup = st.builds(
             lambda eb, ins: {"producer": "merge", "eb": eb, "inputs": _force_dup(_dedupe(ins))},
             ebs, st.lists(st.builds(lambda e, s: {"eb": e, "slots": s}, ebs, slots(1, 3, True)), min_size=2, max_size=4))
-        strat = st.one_of(pay, pay, merge, merge, paydup, mergedup)
+        envp = st.builds(lambda eb, sl: {"producer": "envelope", "eb": eb, "slots": [[u, min(n, 3000), f] for u, n, f in sl]}, ebs, slots(1, 6, True))
+        strat = st.one_of(pay, pay, merge, merge, paydup, mergedup, envp)
         run_given(ctx, acc, "seq", strat, lambda c, a: judge(c, a, ctx), seed=ctx.seed * 1000 + spec["i"], n=spec["n"])
     return acc
 
@@ -342,6 +357,6 @@ def finalize(ctx, m, ev):
     ev["coverage"]["exhaustive_scope"] = "plane eb x residue x {first,later}; sequences are sampled"
     if c.get("accepted", 0) < 0.5 * m["evals"]:
         raise boot.HarnessError(f"only {c.get('accepted', 0)} of {m['evals']} cases were accepted by the tool: check is vacuous")
-    for need in ("branch:none", "branch:short", "branch:long", "negative:duplicate-uri", "producer:merge"):
+    for need in ("branch:none", "branch:short", "branch:long", "negative:duplicate-uri", "producer:merge", "producer:envelope"):
         if not c.get(need):
             raise boot.HarnessError(f"interesting class {need} is empty")
